@@ -37,6 +37,17 @@ def reply_inodes(st, o):
 def predicate(case, i, tb):
     """-> list of (what, sig) violations of C07 at step i (a request)"""
     st, o, ref = case.steps[i], case.obs[i], case.ref_hist[i]
+    if st['k'] == 'M' and o['status'] in ('ok', 'err'):
+        # index allocation: non-zero, not the index of an attached mount; refused exactly when all 255 are taken
+        bad = []
+        if o['status'] == 'ok':
+            idx = o['vals'][0]
+            if idx == 0 or idx > 255: bad.append(('mount returned index %d' % idx, dict(kind='alloc-bad-index')))
+            elif idx in ref['owner']: bad.append(('mount returned index %d, which belongs to the attached backend %d' % (idx, ref['owner'][idx]), dict(kind='alloc-in-use')))
+            if len(ref['owner']) >= 255: bad.append(('mount succeeded with 255 attached mounts', dict(kind='alloc-overfull')))
+        elif o.get('variant') == 5 and len(ref['owner']) < 255:
+            bad.append(('mount refused for lack of an index with only %d attached mounts' % len(ref['owner']), dict(kind='alloc-refused')))
+        return bad
     if st['k'] != 'R' or o['status'] in ('panic', 'skipped'): return []
     op = st['op']; bad = []
     def v(what, **sig):
@@ -81,14 +92,14 @@ def predicate(case, i, tb):
         if t1[0] == 'backend':
             tidx = t2[3] if op == 'link' else t1[3]
             if want == 0:
-                v('%s: backend answered inode 0 but the client got %d' % (what, x), kind='bad-issued', what=what)
+                v('%s: backend answered inode 0 but the client got %d' % (what, x), kind='bad-issued', field=what)
             elif idx != tidx or ino != want or x >> 64:
-                v('%s = %#x does not decode to (mount index %d, backend inode %d)' % (what, x, tidx, want), kind='bad-issued', what=what)
+                v('%s = %#x does not decode to (mount index %d, backend inode %d)' % (what, x, tidx, want), kind='bad-issued', field=what)
         elif t1[0] == 'pseudo':
             if idx != 0:
                 # crossing: must be the root of a mount that is currently attached
                 ok = any(m['idx'] == idx and m['root'] == ino and ref['owner'].get(idx) == m['bid'] for m in ref['mounts'].values())
-                if not ok: v('%s = %#x handed out by a pseudo directory is not the root of an attached mount' % (what, x), kind='bad-crossing', what=what)
+                if not ok: v('%s = %#x handed out by a pseudo directory is not the root of an attached mount' % (what, x), kind='bad-crossing', field=what)
     # 6. codec: a backend inode number is refused exactly when it is above VFS_MAX_INO
     if t1[0] == 'backend' and (not two or (t2[0] == 'backend' and t1[3] == t2[3])) and evs and st['ans']['err'] == 0:
         nums = None
